@@ -488,7 +488,7 @@ func TestVerifE2Concurrent(t *testing.T) {
 		dir := t.TempDir()
 		opts := NewOptions()
 		opts.Logger = vfE2NopLogger{}
-		opts.TCPAddress, opts.HTTPAddress, opts.HTTPSAddress = "127.0.0.1:0", "127.0.0.1:0", "127.0.0.1:0"
+		opts.TCPAddress, opts.HTTPAddress, opts.HTTPSAddress = vfLoop3()
 		opts.DataPath = dir
 		opts.MemQueueSize = int64([]int{0, 2, 5, 10000}[r.Intn(4)])
 		opts.MaxBytesPerFile = 2048
